@@ -70,7 +70,12 @@ def g_key(rng, valid_bias=0.8):
 
 
 def g_scalar(rng, kind=None):
-    kind = kind or rng.choice(['str', 'str', 'int', 'int', 'bool', 'float', 'bytes', 'badbytes', 'none', 'other'])
+    kind = kind or rng.choice(['str', 'str', 'int', 'int', 'bool', 'float', 'bytes', 'badbytes', 'none', 'other'] * 25
+                              + ['isub', 'ssub'])
+    if kind == 'isub':
+        return {'t': 'isub', 'v': rng.choice([0, 3, 7])}
+    if kind == 'ssub':
+        return {'t': 'ssub', 'v': rng.choice(STRS)}
     if kind == 'str':
         return {'t': 'str', 'v': rng.choice(STRS)}
     if kind == 'int':
@@ -243,7 +248,7 @@ BLANK_SN = 'C18/empty-service-name-from-plugin'
 def falsy(v):
     """is the (valid) attribute value falsy in Python?"""
     t = v['t']
-    return ((t == 'str' and v['v'] == '') or (t == 'int' and v['v'] == 0) or (t == 'bool' and not v['v'])
+    return ((t in ('str', 'ssub') and v['v'] == '') or (t in ('int', 'isub') and v['v'] == 0) or (t == 'bool' and not v['v'])
             or (t == 'float' and float(v['r']) == 0.0) or (t == 'seq' and not v['xs']) or (t == 'bytes' and v['hex'] == ''))
 
 
@@ -724,6 +729,8 @@ def ref_clean(key, val, mvl):
                     out.append(None)
                     continue
                 return False, None
+            if type(c) not in (bool, int, float, str):     # exact type (a subclass instance is not an element type)
+                return False, None
             kinds.add(type(c))
             out.append(c)
         if len(kinds) > 1:
@@ -1110,8 +1117,18 @@ def m_kvs(kvs):
     return codec.for_model(kvs)
 
 
+def has_subclass_value(x):
+    if isinstance(x, dict):
+        return x.get('t') in ('isub', 'ssub') or any(has_subclass_value(v) for v in x.values())
+    if isinstance(x, list):
+        return any(has_subclass_value(v) for v in x)
+    return False
+
+
 def model_request(case, obs):
     k = case['kind']
+    if has_subclass_value(case):
+        return None         # instances of subclasses of int/str: outside the model (ASSUMPTIONS), judged by the oracle
     if k == 'ba':
         ops = []
         for op in case['ops']:
